@@ -8,5 +8,6 @@ CONSTANTS
   DEV_AccumulatingRoot = FALSE
     DEV_NoTruncate = TRUE
   DEV_NetworkCached = FALSE
+  DEV_FailedWriteKeepsDoc = FALSE
 VIEW View
 PROPERTY PropOwnInputs
